@@ -9,6 +9,9 @@ import (
 	"github.com/shopspring/decimal"
 )
 
+// numbers in JSON with exponents outside of this range (e.g. 1E999999999) are converted to errors
+const maxJSONNumberExponent = 1000
+
 // JSONToXValue returns an X type from the given JSON
 func JSONToXValue(data []byte) XValue {
 	if len(data) == 0 {
@@ -39,6 +42,10 @@ func jsonTypeToXValue(data []byte, valType jsonparser.ValueType) XValue {
 	case jsonparser.Number:
 		decimalVal, err := decimal.NewFromString(string(data))
 		if err == nil {
+			// rendering or rescaling a decimal costs time and memory proportional to 10^|exponent|
+			if decimalVal.Exponent() < -maxJSONNumberExponent || decimalVal.Exponent() > maxJSONNumberExponent {
+				return NewXErrorf("number value out of range")
+			}
 			return NewXNumber(decimalVal)
 		}
 	case jsonparser.Boolean:
